@@ -1,5 +1,6 @@
 """C18 - payment requests cannot be forged or altered (structural part: "parse => signature verified", metadata verification, TLV ranges)."""
 from engine import *
+import re
 import provenance
 import tlv, os
 
@@ -494,7 +495,17 @@ def r18h(F):
 	lz = sz.call_blocks(lambda p: p.endswith('leading_zeros'))
 	dc = sz.call_blocks(lambda p: p.endswith('div_ceil'))
 	ok = bool(lz) and bool(dc)
-	out.append(Result('18.h', ok, ('ok:' if ok else 'shape:') + 'declared-length-from-bit-length', 'encoded_int_be_base32_size = ceil((64 - leading_zeros) / 5): 0 for 0', len(lz) + len(dc), where=F.where(sz.name)))
+	# ... and nothing else: the value returned IS the div_ceil (no lower clamp - zero must declare length 0, the encoder emits no symbol for it)
+	sex = Expr(sz)
+	rets = []
+	for d in sz.defs.get(0, []):
+		if d[1] == 'T':
+			ci = sz.blocks[d[0]]['t'][2]
+			rets.append('%s(%s)' % (norm(ci.get('f') or '').rsplit('::', 1)[-1], ', '.join(expr_str(sex.of_operand(a)) for a in ci['args'])))
+		else:
+			rets.append(expr_str(sex.of_rvalue(d[3])))
+	ok = ok and len(rets) == 1 and bool(re.match(r'^div_ceil\(\(64 Sub leading_zeros\(\w+\) as usize\), 5\)$', rets[0]))
+	out.append(Result('18.h', ok, ('ok:' if ok else 'shape:') + 'declared-length-from-bit-length', 'encoded_int_be_base32_size returns %s (expected exactly ceil((64 - leading_zeros) / 5): 0 for 0)' % rets, len(lz) + len(dc), where=F.where(sz.name)))
 	return out
 
 def r18i(F):
